@@ -17,7 +17,8 @@ def showEntries (m : List Entry) : String := ";".intercalate (m.map showEntry)
 
 def parseRun (s : String) : Option Run :=
   match s.splitOn ":" with
-  | [c, d, t, o] => some ⟨c, d, t, o == "1"⟩
+  | [c, d, t, o] => some ⟨c, d, t, o == "1", false⟩
+  | [c, d, t, o, sn] => some ⟨c, d, t, o == "1", sn == "1"⟩
   | _ => none
 
 def insertSorted (x : String) : List String → List String
